@@ -134,7 +134,10 @@ pub fn item_as_argument<P: Proto, const KIND: u8>() {
 #[cfg(kani)]
 pub fn item_nested<P: Proto, const WITH_NAME: bool>() {
     let id: i32 = kani::any();
-    let tail: i32 = kani::any();
+    // concrete sibling value: if the nested decode swallows part of the enclosing struct, the
+    // outer loop reads one of these bytes as a field TYPE; a symbolic type byte there makes every
+    // decoder arm feasible (no verdict in 420 s). Low byte 0 = it is then taken for a stop.
+    let tail: i32 = 0x0A0B_0C00;
     let nm: [u8; 1] = kani::any();
     kani::assume(nm[0] < 0x80);
     let mut o = rt::Out::<48>::new();
